@@ -12,7 +12,7 @@ PKGDIR = {"markup": "markup", "markup_test": "markup", "ysgo": ".", "ysgo_test":
           "tree_test": "internal/tree", "variable": "variable", "variable_test": "variable", "rng": "internal/rng", "rng_test": "internal/rng"}
 
 def sh(cmd, cwd=None):
-    p = subprocess.run(cmd, shell=True, cwd=cwd, env=env, stdout=subprocess.PIPE, stderr=subprocess.STDOUT, text=True)
+    p = subprocess.run(cmd, shell=True, cwd=cwd, env=env, stdout=subprocess.PIPE, stderr=subprocess.STDOUT, text=True, errors="replace")
     return p.returncode, p.stdout
 
 sh("git -C /repo worktree add -q --detach %s HEAD" % wt)
@@ -32,7 +32,7 @@ try:
         for dst, pkg in placed:
             rc, out = sh("go test -vet=off -count=1 -run 'Demo|Seed|Test' ./%s 2>&1 | tail -15" % pkg, wt)
             # only the demo file's tests matter: run all tests of the package; the package's own tests pass anyway
-            rc, out = sh("go test -vet=off -count=1 ./%s" % pkg, wt)
+            rc, out = sh("go test %s -vet=off -count=1 ./%s" % ("-race" if os.environ.get("SEED_RACE") else "", pkg), wt)
             ok = ok and rc == 0
             outs.append(out[-600:])
         return ok, outs
@@ -61,7 +61,7 @@ try:
     # 3. checks
     caught = {}
     for c in checks:
-        p = subprocess.run(["./check", c, "quick"], cwd="/verif", env=dict(env, VERIF_REPO=wt), stdout=subprocess.PIPE, stderr=subprocess.STDOUT, text=True)
+        p = subprocess.run(["./check", c, "quick"], cwd="/verif", env=dict(env, VERIF_REPO=wt), stdout=subprocess.PIPE, stderr=subprocess.STDOUT, text=True, errors="replace")
         viol = [l for l in p.stdout.splitlines() if l.startswith("VIOLATION")]
         caught[c] = {"exit": p.returncode, "violations": [re.sub(r"replay=\S+/", "replay=", v) for v in viol][:4]}
     result["quick_checks"] = caught
